@@ -2,7 +2,8 @@
 (* Trace validation for Driver: is each recorded execution of the real bxdecay0-run (system calls observed   *)
 (* with strace or with the LD_PRELOAD shim, final files read back from disk) a behaviour of Driver?          *)
 (* One ndjson line per Driver action; executions are concatenated, each starts with a Reset line carrying    *)
-(* the plan (computed by CmdLine for the command line that was run).  Lines marked "inferred" are internal   *)
+(* the plan (computed by CmdLine for the command line that was run) and which files of an earlier complete  *)
+(* run are in place on the base name.  Lines marked "inferred" are internal   *)
 (* actions with no system call of their own (Parse, InitGen, Header, WriteEvent, WriteStatus); the harness   *)
 (* places them immediately before the first write that carries their output.  "Disk" lines compare the       *)
 (* durable state of the model with what is found on disk.                                                    *)
@@ -23,7 +24,7 @@ Is(e) == l <= Len(TraceLog) /\ TraceLog[l].e = e
 Adv == l' = l + 1
 
 TInit == /\ l = 2 /\ TraceLog[1].e = "Reset"
-         /\ plan = PlanOf(TraceLog[1]) /\ Fresh
+         /\ plan = PlanOf(TraceLog[1]) /\ Fresh /\ old = Range(TraceLog[1].old)
 
 \* next execution: only after the previous one has ended
 TReset ==
@@ -32,6 +33,7 @@ TReset ==
   /\ tw' = <<>> /\ tdur' = 0 /\ tornT' = FALSE /\ openT' = FALSE
   /\ cw' = <<>> /\ cdur' = 0 /\ tornC' = FALSE /\ openC' = FALSE
   /\ outcome' = [rc |-> -1, msg |-> FALSE]
+  /\ old' = Range(Ev.old)
   /\ Adv
 
 \* what is on disk is what the model says is durable
@@ -39,6 +41,7 @@ TDisk ==
   /\ Is("Disk")
   /\ D0t = Ev.t /\ tornT = Ev.tornT
   /\ D0c = Ev.c /\ tornC = Ev.tornC
+  /\ old = Range(Ev.old)            \* which files still hold the earlier run's bytes
   /\ UNCHANGED vars /\ Adv
 
 TNext ==
